@@ -279,13 +279,17 @@ def scanSiblings (t : ObjectTree) (expr : List UInt8) (seg : Nat) : Nat → Nat 
 def isNameStart (b : UInt8) : Bool := b = 0x5f || (0x41 ≤ b && b ≤ 0x5a)
 
 /-- the inner skipping loop of `findRelative`:
-`for ; segIndex < exprLen && expr[segIndex] != '_' && (expr[segIndex] < 'A' || expr[segIndex] > 'Z'); segIndex++ {}` -/
+`for ; segIndex < exprLen && expr[segIndex] != '_' && (expr[segIndex] < 'A' || expr[segIndex] > 'Z'); segIndex++ { if expr[segIndex] == 0x2f { segIndex++ } }`
+(the byte after a MultiNamePrefix `0x2f` is the segment count and is skipped with it; the result
+may be `exprLen + 1`). -/
 def skipPrefix (expr : List UInt8) : Nat → Nat → Nat
   | 0, seg => seg
   | f+1, seg =>
     match expr[seg]? with
     | none => seg
-    | some b => if isNameStart b then seg else skipPrefix expr f (seg + 1)
+    | some b =>
+      if isNameStart b then seg
+      else skipPrefix expr f (if b = 0x2f then seg + 2 else seg + 1)
 
 /-- the `nextSegment` loop of `findRelative` from `segIndex`; `n` bounds the iterations by the
 expression length -/
